@@ -461,6 +461,7 @@ func orchestrate(id, tier string) int {
 	var samples []json.RawMessage
 	var viols []core.Violation
 	var inconcl []string
+	confirmations := 0
 	var dfiles []string
 	capped := false
 	for i := 0; i < n; i++ {
@@ -489,6 +490,12 @@ func orchestrate(id, tier string) int {
 					cmd := exec.Command(self, "replay", m.ID, tmp)
 					cmd.Env = append(os.Environ(), "VCHECK_QUIET=1")
 					var confirmed bool
+					if confirmations >= 3 {
+						// enough witnesses: further deaths of this run are not confirmed one by one
+						inconcl[len(inconcl)-1] += " [not re-run: three deaths of this run were confirmed already]"
+						continue
+					}
+					confirmations++
 					if err := cmd.Start(); err != nil {
 						confirmed = true
 					} else {
@@ -497,7 +504,7 @@ func orchestrate(id, tier string) int {
 						select {
 						case err := <-cdone:
 							confirmed = err != nil
-						case <-time.After(4 * time.Minute):
+						case <-time.After(150 * time.Second):
 							cmd.Process.Kill()
 							<-cdone
 							confirmed = true
